@@ -1,6 +1,7 @@
 package scen
 
 import (
+	"context"
 	"fmt"
 	"math/rand/v2"
 	"strings"
@@ -76,6 +77,11 @@ func (c13) Gen(r *rand.Rand, tier string, run int) *core.Case {
 	if r.IntN(4) == 0 {
 		c.Params["sibling"] = 1
 		c.Params["sibling_after"] = r.IntN(80)
+	}
+	if r.IntN(5) == 0 {
+		// the first subscriber subscribes through a proxy bound to a context
+		// and gives that context up just before it cancels its subscription
+		c.Params["ctx_subs"] = 1
 	}
 	if r.IntN(4) == 0 {
 		// a second service of the same kind on the same server, watched
@@ -563,9 +569,10 @@ func (c13) Run(c *core.Case, env *core.Env) {
 }
 
 type c13actor struct {
-	a       int
-	cur     *c13sub
-	cancel  func()
+	a         int
+	cur       *c13sub
+	cancel    func()
+	ctxCancel func()
 	proxies map[int]probe.ProbeProxy
 }
 
@@ -629,6 +636,12 @@ func (as *c13actor) do(c *core.Case, env *core.Env, st *c13state, op core.Op, cl
 			p = as.proxies[conn]
 		}
 		rec := &c13sub{sub: a, sig: int(op.X) % 4, conn: conn}
+		if c.P("ctx_subs", 0) == 1 && a == 0 {
+			ctx, cancelCtx := context.WithCancel(context.Background())
+			p = p.WithContext(ctx)
+			as.ctxCancel = cancelCtx
+			env.Probe("subscriptions-through-a-proxy-bound-to-a-context")
+		}
 		h := env.Invoke(a, "subscribe", fmt.Sprintf("sig%d conn%d", rec.sig, conn))
 		var ch chan int32
 		var err error
@@ -682,6 +695,10 @@ func (as *c13actor) do(c *core.Case, env *core.Env, st *c13state, op core.Op, cl
 		st.mu.Lock()
 		as.cur.cancelCall = h.Call
 		st.mu.Unlock()
+		if as.ctxCancel != nil {
+			as.ctxCancel()
+			as.ctxCancel = nil
+		}
 		as.cancel()
 		env.Return(h, "", nil)
 		st.mu.Lock()
